@@ -25,6 +25,38 @@ def cfg(n=3):
     return c
 
 
+def cfg_tree():
+    """a(2) and its child a/b(2): the same MH keys name different messages in parent and child."""
+    from .. import msgs, templates
+
+    def setup(w, s):
+        templates.must_ok(s, "CREATE a")
+        templates.must_ok(s, "CREATE a/b")
+        templates.append(s, "INBOX", "m1", "", n=1)
+        for i in (1, 2):
+            templates.append(s, "a", f"p{i}", "", n=10 + i)
+            templates.append(s, "a/b", f"k{i}", "", n=20 + i)
+
+    tmpl = templates.build("c03-tree", setup)
+    init = {"INBOX": [(1, "m1", set(), msgs.idate_epoch(1))],
+            "a": [(i, f"p{i}", set(), msgs.idate_epoch(10 + i)) for i in (1, 2)],
+            "a/b": [(i, f"k{i}", set(), msgs.idate_epoch(20 + i)) for i in (1, 2)]}
+    return {"prop": PROP, "name": "c03-tree", "template": tmpl, "init": init, "mode": "new", "driver": "h", "loopopts": {},
+            "prelude": [{"s": "B", "op": "select", "m": "a/b"}]}
+
+
+def alphabet_tree(tier):
+    A, B = "A", "B"
+    return [
+        {"s": A, "op": "rename", "m": "a", "to": "c"}, {"s": A, "op": "rename", "m": "c", "to": "a"},
+        {"s": A, "op": "rename", "m": "a/b", "to": "a/d"}, {"s": A, "op": "rename", "m": "a", "to": "x/y"},
+        {"s": B, "op": "select", "m": "a/b"}, {"s": B, "op": "select", "m": "c/b"}, {"s": B, "op": "select", "m": "c"}, {"s": B, "op": "select", "m": "a"},
+        {"s": B, "op": "fetch", "set": "1:*", "items": SUBJ, "uid": True}, {"s": B, "op": "fetch", "set": "2", "items": SUBJ},
+        {"s": B, "op": "del", "set": "1"}, {"s": A, "op": "append", "m": "a/b"}, {"s": A, "op": "append", "m": "c/b"},
+        {"s": "env", "op": "poll", "dt": 21.0}, {"s": "env", "op": "restart"},
+    ]
+
+
 def alphabet(tier):
     A, B = "A", "B"
     ev = [
@@ -64,6 +96,8 @@ def run(tier, seed, jobs):
             {"s": "env", "op": "deliver", "m": "INBOX"}, {"s": "env", "op": "poll", "dt": 21.0},
             {"s": "B", "op": "fetch", "set": "1:*", "items": SUBJ, "uid": True}]
     plans.append({"cfg_ref": ("vf.props.c03", "cfg", [3]), "alphabet": core, "depth": 5 if tier == "quick" else 6, "label": "INBOX(3), core alphabet, deep"})
+    plans.append({"cfg_ref": ("vf.props.c03", "cfg_tree", []), "alphabet": alphabet_tree(tier), "depth": 3 if tier == "quick" else 4,
+                  "label": "a(2) with child a/b(2): RENAME of parent / child while the child is selected, fetched, appended to"})
     res = run_h(PROP, RULES, plans, ("C03",), jobs, seed,
                 ["sessions A (mutator) and B (prober) both selected on INBOX(3 or 4); pack threshold lowered to 2 messages",
                  "expunge subsets are the 6 listed set shapes per state (composed over the history they reach every subset)",
